@@ -247,15 +247,27 @@ def stepS {τ : Type} (N : Normaliser τ) (s : St τ) (batch : List Rec) : St τ
     let r := step N s.tree s.agg batch
     { tree := r.1, agg := r.2, file := persist r.2 }
 
-/-- A run is a sequence of batches and restarts (the state file survives, the learnt tree does not). -/
+/-- A `Run` whose `UpdateAggregation` could not write the state file (disk full, I/O error): the combined
+    aggregation HAS been adopted in memory (`state.aggregation = aggregation` comes before the marshal and the
+    write), the file keeps its old content and `Run` returns `ErrCouldNotDumpCombinedAgg`. -/
+def stepNoDump {τ : Type} (N : Normaliser τ) (s : St τ) (batch : List Rec) : St τ :=
+  if batch.isEmpty then s
+  else
+    let r := step N s.tree s.agg batch
+    { tree := r.1, agg := r.2, file := s.file }
+
+/-- A run is a sequence of batches (whose flush to the state file succeeds, or fails: `batchNoDump`) and
+    restarts (the state file survives, the learnt tree and the in-memory aggregation do not). -/
 inductive Seg where
   | batch (rs : List Rec)
+  | batchNoDump (rs : List Rec)
   | restart
 deriving Repr
 
 def runSegs {τ : Type} (N : Normaliser τ) (T0 : τ) : St τ → List Seg → St τ
   | s, [] => s
   | s, Seg.batch rs :: rest => runSegs N T0 (stepS N s rs) rest
+  | s, Seg.batchNoDump rs :: rest => runSegs N T0 (stepNoDump N s rs) rest
   | s, Seg.restart :: rest => runSegs N T0 { tree := T0, agg := restore s.file, file := s.file } rest
 
 /-- Restart-free run over a list of batches. -/
